@@ -548,6 +548,9 @@ def check_C07(tier, seed):
                                            "memoised domain are outside C07's wording)"]
     run.mc("Lazy", "mech", constants=dict(N=4, MaxLen=8 if quick else 10),
            invariants=("MemoIsPulled", "PulledIsPrefix"), properties=("PullsOnlyGrow", "NoWorkOnNew"), constraint="Bound")
+    run.mc("CacheProtocol", "lifecycle", constants=dict(N=3, ClearOnAbort=True, ClearResetsMark=True, ClearSkipsEmpty=False,
+                                                         MaxLen=10), invariants=("ServesTruth", "MarkMeansComplete"),
+           constraint="Bound")
     behs = run.export("Lazy", "export", "BEH", constants=dict(N=1, MaxLen=5 if quick else 7), invariants=("Export",),
                       constraint="Bound", count=False)
     behs += run.export("Lazy", "walks", "BEH", constants=dict(N=1, MaxLen=12 if quick else 20), invariants=("Export",),
@@ -624,6 +627,10 @@ def check_C04(tier, seed):
     run.assumptions = QUERY_ASSUMPTIONS + ["an abandoned iterator is never resumed after another evaluation started"]
     run.mc("EvalSession", "histories", constants=dict(NQ=2, MaxLen=4 if quick else 5, WithCfg=False), invariants=("TypeOK",),
            constraint="Bound")
+    # Layer B: the life cycle of an operator result cache over completed, abandoned and aborted evaluations
+    run.mc("CacheProtocol", "lifecycle", constants=dict(N=3 if quick else 4, ClearOnAbort=True, ClearResetsMark=True,
+                                                         ClearSkipsEmpty=False, MaxLen=10 if quick else 14),
+           invariants=("ServesTruth", "MarkMeansComplete"), constraint="Bound")
     behs = run.export("EvalSession", "export", "BEH", constants=dict(NQ=2, MaxLen=3 if quick else 4, WithCfg=False),
                       invariants=("Export",), constraint="Bound", count=False)
     behs += run.export("EvalSession", "walks", "BEH", constants=dict(NQ=2, MaxLen=7, WithCfg=False), invariants=("Export",),
